@@ -537,7 +537,9 @@ class Executor:
                     H = s2.heap
                     p = it.t
                     self.assumed_used.add('A-ET-LIST')
-                    out.append((s2, SList(H.len(p), lambda k, H=H, p=p: SNode(H.at(p, k)), desc='children(%s)' % p)))
+                    lst = SList(H.len(p), lambda k, H=H, p=p: SNode(H.at(p, k)), desc='children(%s)' % p)
+                    lst.children_of = (H, p)
+                    out.append((s2, lst))
             return out
         if isinstance(it, SNone):
             return [(st, Raised(SExc('TypeError', origin='iterate None')))]
